@@ -1,36 +1,47 @@
 #!/usr/bin/env python3
 """Run the checks against every confirmed seeded change under /verif/seeded (scratch copy of
-/repo + patch; nothing is applied to /repo).  Prints which checks catch which seed."""
+/repo + patch; nothing is applied to /repo; evidence of these runs goes to a scratch directory).
+Prints which checks catch which seed."""
 import glob, json, os, re, shutil, subprocess, sys, tempfile
+from concurrent.futures import ThreadPoolExecutor
 HERE = os.path.dirname(os.path.abspath(__file__))
 claimed = [c["property_id"] for c in json.load(open(os.path.join(HERE, "MANIFEST.json")))["checks"]]
-only = sys.argv[1:]
-rows = []
-for d in sorted(glob.glob(os.path.join(HERE, "seeded", "*"))):
+only = [a for a in sys.argv[1:] if not a.startswith("-")]
+own_only = "--own" in sys.argv     # only the seed's own property (fast)
+
+
+def one(d):
     sid = os.path.basename(d)
-    if only and not any(sid.startswith(o) for o in only):
-        continue
     meta = json.load(open(os.path.join(d, "meta.json")))
     scratch = tempfile.mkdtemp(prefix="msqlx-seed-")
+    evd = tempfile.mkdtemp(prefix="msqlx-ev-")
     try:
         subprocess.run(["rsync", "-a", "--exclude", "target", "--exclude", ".git", "/repo/", scratch + "/"], check=True)
         r = subprocess.run(["patch", "-p1", "-s", "--no-backup-if-mismatch", "-i", os.path.join(d, "patch.diff")], cwd=scratch, capture_output=True, text=True)
         if r.returncode != 0:
-            rows.append((sid, "PATCH-FAILED", r.stdout[-300:])); continue
+            return (sid, "PATCH-FAILED", r.stdout[-300:])
         caught = []
-        props = [meta["property"]] + [p for p in claimed if p != meta["property"]]
+        props = [meta["property"]] + ([] if own_only else [p for p in claimed if p != meta["property"]])
         for prop in props:
             if prop not in claimed:
                 continue
-            r = subprocess.run([os.path.join(HERE, "check"), prop], env=dict(os.environ, MSQLX_REPO=scratch), capture_output=True, text=True, cwd=HERE)
+            r = subprocess.run([os.path.join(HERE, "check"), prop], env=dict(os.environ, MSQLX_REPO=scratch, MSQLX_EVIDENCE_DIR=evd), capture_output=True, text=True, cwd=HERE)
             if r.returncode == 1:
                 caught.append("%s[%s]" % (prop, ",".join(sorted(set(re.findall(r"violation rule=(\S+)", r.stdout))))))
             elif r.returncode not in (0, 1):
                 caught.append("%s[rc=%d]" % (prop, r.returncode))
-        rows.append((sid, "CAUGHT" if caught else "MISSED", " ".join(caught)))
+        own = any(c.startswith(meta["property"] + "[") and "rc=" not in c for c in caught)
+        return (sid, "CAUGHT" if own else ("OTHER-ONLY" if caught else "MISSED"), " ".join(caught))
     finally:
         shutil.rmtree(scratch, ignore_errors=True)
-for r in rows:
-    print("%-8s %-8s %s" % r)
-for prop in claimed:
-    subprocess.run([os.path.join(HERE, "check"), prop], capture_output=True, text=True, cwd=HERE)
+        shutil.rmtree(evd, ignore_errors=True)
+
+
+dirs = [d for d in sorted(glob.glob(os.path.join(HERE, "seeded", "*"))) if not only or any(os.path.basename(d).startswith(o) for o in only)]
+bad = 0
+with ThreadPoolExecutor(max_workers=5) as ex:
+    for row in ex.map(one, dirs):
+        print("%-8s %-10s %s" % row, flush=True)
+        bad += row[1] != "CAUGHT"
+print("seeded: %d run, %d not caught by their own property's check" % (len(dirs), bad))
+sys.exit(1 if bad else 0)
